@@ -844,6 +844,8 @@ impl Session {
             self.general_channels.tx.clone(),
             self.general_channels.broad.subscribe(),
         );
+        #[cfg(feature = "verif")]
+        peer_handler.verif_gate_broadcast();
 
         let job = tokio::spawn(async move { peer_handler.run_incoming().await });
 
